@@ -197,6 +197,14 @@ def h_forms(H0, H1, sup=False):
     }
 
 
+def safe_snap(v):
+    """a snapshot even of an object left inconsistent by the call (data that no longer fits its dims, ...)"""
+    try:
+        return snap(v)
+    except Exception as e:      # noqa
+        return ("inconsistent-object", type(e).__name__, str(e)[:120])
+
+
 class Raised:
     def __init__(self, kind):
         self.kind = kind
@@ -214,7 +222,7 @@ class Table:
         rep = self.rep
         rep.evaluations += 1
         rep.count("call=" + name.split(":")[0])
-        before = {k: snap(v) for k, v in inputs.items()}
+        before = {k: safe_snap(v) for k, v in inputs.items()}
         try:
             with warnings.catch_warnings():
                 warnings.simplefilter("ignore")
@@ -226,7 +234,7 @@ class Table:
             rep.count("raises=" + type(e).__name__)
             self.raised.setdefault(name.split(":")[0] + ":" + type(e).__name__, str(e)[:150] + " @ " + name)
             out1 = Raised(type(e).__name__)
-        after = {k: snap(v) for k, v in inputs.items()}
+        after = {k: safe_snap(v) for k, v in inputs.items()}
         changed = [k for k in inputs if before[k] != after[k]]
         for t in targets:
             self.observed[t] = self.observed.get(t, False) or bool(changed)
@@ -247,12 +255,16 @@ class Table:
                 raise
             except Exception as e:
                 out2 = Raised(type(e).__name__)
-            v1, v2 = view(out1), view(out2)
-            if not same_view(v1, v2):
+            try:
+                v1, v2 = view(out1), view(out2)
+                differs = not same_view(v1, v2)
+            except Exception:       # noqa  (a result that cannot even be read back)
+                differs = True
+            if differs:
                 sig = f"repeat-differs:{name.split(':')[0]}"
                 if sig not in self.viol:
                     self.viol[sig] = (f"{name}: repeating the call with the same objects gives a different answer", {"call": name, "detail": detail})
-            after2 = {k: snap(v) for k, v in inputs.items()}
+            after2 = {k: safe_snap(v) for k, v in inputs.items()}
             changed = [k for k in inputs if before[k] != after2[k]]
             if changed:
                 sig = f"mutates:{name.split(':')[0]}:{changed[0]}"
@@ -334,6 +346,25 @@ def qobjevo_ops(T, fmts):
                 }
                 for nm, fn in ops.items():
                     T.check(f"QobjEvo.{nm}:{fmt}/{fname}/{sfmt}", inputs, fn, detail={"fmt": fmt, "form": fname, "state": sfmt})
+
+
+def super_expect_ops(T):
+    """superoperator QobjEvo with one and several terms: expect / matmul on density matrices in every storage and memory order"""
+    import qutip
+    H0, H1, c, psi, e = system("csr")
+    L0 = qutip.liouvillian(H0, c)
+    forms = {"one-constant": lambda: qutip.QobjEvo(L0), "one-pair": lambda: qutip.QobjEvo([[L0, f_sin]], args={"w": 1.3}),
+             "function": lambda: qutip.QobjEvo(lambda t: L0 * (1 + t)), "two-terms": lambda: qutip.QobjEvo([L0, [qutip.liouvillian(H1), f_sin]], args={"w": 1.3})}
+    for fname, mk in forms.items():
+        for sfmt in ("dense", "dense_f", "csr", "dia"):
+            rho = to_fmt(qutip.ket2dm(psi), sfmt).copy()
+            vec_ = qutip.operator_to_vector(rho)
+            inputs = {"L": mk(), "rho": rho, "vec": vec_, "ops": list(e)}
+            T.check(f"QobjEvo.super-expect:{fname}/{sfmt}", inputs,
+                    lambda d: (d["L"].expect(0.4, d["rho"]), d["L"].expect(0.4, d["vec"]), d["L"].matmul(0.4, d["vec"]), d["L"].matmul(0.4, d["rho"]) if False else 0,
+                               d["L"].expect_data(0.4, d["rho"].data), qutip.expect(d["ops"][0], d["rho"])), detail={"form": fname, "state": sfmt})
+            T.check(f"mesolve-e_ops-super:{fname}/{sfmt}", {"L": L0, "E": mk(), "rho": rho, "tlist": np.linspace(0, 0.6, 4)},
+                    lambda d: qutip.mesolve(d["L"], d["rho"], d["tlist"], e_ops=[d["E"]], options={"store_states": True}), detail={"form": fname, "state": sfmt})
 
 
 def _iadd_copy(d):
@@ -633,6 +664,7 @@ def run(tier, seed, replay):
     qobj_ops(T, FORMATS)
     qobjevo_ops(T, fmts)
     feedback_ops(T)
+    super_expect_ops(T)
     coefficient_ops(T)
     solver_ops(T, tier, fmts)
     rep.case({"formats": fmts}, True)
